@@ -52,6 +52,23 @@ claim("C03", "other",
       "symbolic execution of the real NumPy code on z3-valued object arrays + polynomial normal form + z3 (QF_NRA)",
       "DESIGN.md section 1, C03")
 
+claim("C04", "other",
+      "One-step induction with LAPACK by contract: from an arbitrary symbolic pre-state satisfying the label invariant, one real _push_cano / canonicalise(stop_idx) / "
+      "lossless compress / ensure_*_canonical on Mps, Mpo, MpDm (2-3 sites quick, 4 thorough) keeps the dense object, makes the sites passed isometries (operators: up to the "
+      "scalar the code deliberately moves), re-establishes the invariant with the centre where advertised, grows no bond; iter_idx_list/_switch_direction are checked over "
+      "symbolic integers for site_num <= 8.",
+      "LAPACK's own accuracy is trusted (contract stubs); variational_compress convergence is not covered; longer chains follow by induction, not execution.",
+      "symbolic execution with LAPACK contract stubs + polynomial reduction modulo the contract equalities + z3 (QF_NRA/LIA)",
+      "DESIGN.md section 1, C04")
+
+claim("C18", "other",
+      "svd_qn / eigh_qn glue (gather block, decompose, scatter, relabel, global sort) on fully symbolic coefficient matrices with every label pattern over {0,1} up to 3x2/2x3 "
+      "(thorough 3x3, 2x4) plus symbolic-integer and two-component labels: orthonormal columns, product = allowed part of the input, column support matches returned label, "
+      "labels add to qntot, sortedness, ValueError iff no block. Krylov: Lanczos structure for n=2 only.",
+      "LAPACK by contract. The Krylov accuracy claim (float convergence to tolerance) is NOT covered - see not-applicable parts in DESIGN.md section 2.",
+      "symbolic execution with LAPACK contract stubs (symbolic labels fork lazily) + z3",
+      "DESIGN.md section 1, C18")
+
 for pid in ["C%02d" % i for i in range(1, 21)]:
     if pid not in CHECKS:
         NA[pid] = "check not built yet (build in progress; see DESIGN.md)"
